@@ -205,6 +205,7 @@ func (n *namer) genCmdBody(c *Cmd) {
 			if i == k-1 && rest && a.T.W != WMap {
 				a.T.W = WSlice
 				a.NamedSlice = a.T.K == KString && r.Chance(cfg.PNamedRest, 100)
+				a.UnmSlice = a.NamedSlice && r.Chance(1, 3)
 				if r.Chance(cfg.PPosReq, 100) {
 					lo := r.Range(0, 3)
 					switch r.Intn(5) {
